@@ -265,7 +265,8 @@ def m_sensitive_invalid_address(rng, d):
     k = _pick(rng, s)
     v = s.pop(k)
     n = len(d["subnets"]) + 1
-    s[rng.choice([f"(0, 0)", f"({n}, 0)", f"({n + 3}, 0)", f"(1, {d['subnets'][0]})", "(1, -1)", "nowhere"])] = v
+    s[rng.choice([f"(0, 0)", f"({n}, 0)", f"({n + 3}, 0)", f"(1, {d['subnets'][0]})", "(1, -1)", "nowhere",
+                  "(-1, 0)", f"(-{n - 1}, 0)", "(-2, 0)"])] = v
     return d
 
 
